@@ -105,6 +105,35 @@ CHECKS["C04"] = dict(
     technique="TLA+ protocol spec with safety + liveness checked by TLC, TLC-generated schedules replayed on real objects through a gated storage, TLC trace validation",
     design_ref="DESIGN.md section 4, C04")
 
+CHECKS["C18"] = dict(
+    text="TLC exhausts the implementation-shaped model MixerImpl (4-state selector st, one-element look-ahead load/e per source, "
+         "Reset with its early returns) for all pairs of input sequences of length <= 2 (thorough <= 3) over {1,2,3}, selectors <, <=, "
+         "TRUE, FALSE, under every call pattern of HasNext/Next/Reset, and proves it refines the contract Merge.tla; on the contract TLC "
+         "checks that the output is an order-preserving interleaving holding every element exactly once, that sorted inputs give sorted "
+         "output, and that output-so-far + rest = whole merge. One test per edge of the MixerImpl graph, closed by a contract-derived "
+         "'drain' epilogue, is replayed on real iterable.Mixer[int] over WrapIntSlice inputs, nested inner mixers and non-resettable "
+         "wrappers; recorded traces of random calls on random inputs up to length 200 are validated by TLC against the same contract "
+         "operators. Bounded model checking plus conformance, not a proof for all input lengths.",
+    note="Trusted: TLC, the Merge.tla contract operators (Step, Rest, HasNextAllowed, NextAllowed), iterable.WrapIntSlice as the source "
+         "iterator. After a Reset on inputs that cannot both be reset the property is silent: only HasNext idempotence and agreement "
+         "with the following Next are judged there (everything else is drift). The value returned with ok=false is not judged.",
+    technique="TLA+ contract + implementation-shaped spec, TLC refinement check, per-edge behaviour replay with drain epilogue on the real object, TLC trace validation",
+    design_ref="DESIGN.md section 4, C18")
+CHECKS["C05"] = dict(
+    text="Timed scenarios on real kvsLock objects over a recording facade of a real in-memory store, in real time: hold for 5-11 lease "
+         "periods with a polling contender and store probes; a request-lost error on the k-th renewal (k = 1..5); holder death at 8 phases "
+         "of the renewal cycle with a waiter blocked in LockWithCtx; Unlock landing around the instant a renewal fires. Every storage call is "
+         "stamped with the harness's monotonic clock and the event log is validated by TLC against the timed contract LeaseTrace.tla (the "
+         "holder's renewals always find its record, probes find it, nobody else acquires; after death the record is gone and the waiter "
+         "holds within a lease + slack; after Unlock at most one renewal reaches the store, fails, and nothing follows). The renewal chain "
+         "(arm at TTL/2, CAS, re-arm, retry after a transient error, Unlock racing a renewal in flight at every phase) is model-checked in "
+         "KvLease.tla with a discrete clock. Real-time sampling of phases, exhaustive only on the model.",
+    note="Real clock, leases 200-400 ms (thorough 150 ms-1.5 s; shorter leases are not judged because scheduler latency would dominate); "
+         "stalled runs (stall detector > lease/8) are repeated, then not judged; one-sided bounds with 1.5 s slack. The reply-lost renewal "
+         "is reproduced and recorded as known finding F-C05-reply-lost.",
+    technique="TLC trace validation of timed event logs from the real lock against a TLA+ timed contract; TLA+ model of the renewal chain checked by TLC",
+    design_ref="DESIGN.md section 4, C05")
+
 
 PENDING_REASON = "check not built yet in this round; the TLA+ design for it is in DESIGN.md section 4"
 
